@@ -309,6 +309,36 @@ def _nk_atomic(idx):
             and all(ln > r1[2] for ln in sig))
 
 
+def _keepalive_guard(repo):
+    """Packetizer._check_keepalive begins with `if <a> or <b> or ...: return`; which attributes does the
+    disjunction test?  -> (skips when need_rekey is set, skips when not yet encrypting)"""
+    tree = ast.parse(open(os.path.join(repo, "paramiko", "packet.py")).read())
+    f = None
+    for node in tree.body:
+        if isinstance(node, ast.ClassDef) and node.name == "Packetizer":
+            for x in node.body:
+                if isinstance(x, ast.FunctionDef) and x.name == "_check_keepalive":
+                    f = x
+    if f is None:
+        raise RuntimeError("Packetizer._check_keepalive not found")
+    body = [st for st in f.body if not (isinstance(st, ast.Expr) and isinstance(st.value, ast.Constant))]
+    if not body or not isinstance(body[0], ast.If) or not any(isinstance(x, ast.Return) for x in body[0].body) \
+            or body[0].orelse:
+        raise RuntimeError("_check_keepalive does not begin with a guard `if ...: return`")
+    test = body[0].test
+    terms = test.values if isinstance(test, ast.BoolOp) and isinstance(test.op, ast.Or) else [test]
+    srcs = [ast.unparse(t) for t in terms]
+    for t in srcs:
+        if t not in ("self.__need_rekey", "not self.__block_engine_out", "not self.__keepalive_interval"):
+            raise RuntimeError("_check_keepalive: unrecognised guard term " + t)
+    # the callback must be invoked only after the guard
+    calls = [c.lineno for c in ast.walk(f) if isinstance(c, ast.Call)
+             and ast.unparse(c.func) == "self.__keepalive_callback"]
+    if not calls or min(calls) <= body[0].end_lineno:
+        raise RuntimeError("_check_keepalive: callback not invoked after the guard")
+    return "self.__need_rekey" in srcs, "not self.__block_engine_out" in srcs
+
+
 def _flag_set_sites(repo):
     sites = set()
     for path in sorted(glob.glob(os.path.join(repo, "paramiko", "*.py"))):
@@ -483,6 +513,8 @@ def tables(repo):
                                                 ["self._send_kex_init", "self._parse_kex_init"]),
         "newkeys_sets": _newkeys_sets(idx[("Transport", "_parse_newkeys")]),
         "nk_atomic": _nk_atomic(idx),
+        "keepalive_need_guard": _keepalive_guard(repo)[0],
+        "keepalive_cipher_guard": _keepalive_guard(repo)[1],
         "flag_set_only_in_newkeys": _flag_set_sites(repo) == {("transport.py", "_parse_newkeys")},
         "public_ungated": _public_ungated(w),
         "kex_gate_uses": _kex_gate_uses(repo),
@@ -522,6 +554,9 @@ def generate(repo):
     f = t["facts"]
     out.append("(* _parse_newkeys releases the gate atomically and signals completion_event afterwards (see Model/C11.v) *)")
     out.append("Definition nk_atomic : bool := %s." % _b(f["nk_atomic"]))
+    out.append("(* Packetizer._check_keepalive returns early while need_rekey is set / before encryption is on *)")
+    out.append("Definition keepalive_need_guard : bool := %s." % _b(f["keepalive_need_guard"]))
+    out.append("Definition keepalive_cipher_guard : bool := %s." % _b(f["keepalive_cipher_guard"]))
     for k in ("gate_waits", "kexinit_clears_first", "negotiate_clears_first", "newkeys_sets",
               "flag_set_only_in_newkeys", "send_message_is_packetizer"):
         out.append("Definition %s : bool := %s." % (k, _b(f[k])))
